@@ -329,7 +329,9 @@ func classifyText(msg string) string {
 	case strings.Contains(msg, "multiple matcher sets"):
 		return "multi"
 	}
-	return "other"
+	// The wording of an error is not behaviour: an unrecognised text is "rejected, reason not classified", which the
+	// comparison (Run/C12Run.v out_compat) accepts against any model rejection - never against a success.
+	return "?"
 }
 
 func (r *runner) newSilences(snapshot io.Reader) {
@@ -634,7 +636,7 @@ func (r *runner) exec(i int, prev view) view {
 		code := classify(err)
 		fresh := r.peek()
 		var sz int64
-		if err == nil || code == "toobig" {
+		if err == nil || code == "toobig" || code == "?" { // "?": possibly a size rejection with another wording
 			sz = int64(proto.Size(&pb.MeshSilence{Silence: sil, ExpiresAt: timestamppb.New(sil.EndsAt.AsTime().Add(r.ret))}))
 		}
 		if err == nil {
@@ -693,6 +695,9 @@ func (r *runner) exec(i int, prev view) view {
 			sj = &setJudge{before, op.Sil.ID, "", r.cid(id), true}
 		case *silence_ops.PostSilencesBadRequest:
 			code := classifyText(x.Payload)
+			if code == "?" || code == "notfound" {
+				code = "?400" // a 400 answer: any reason, but not the not-found one (that is a 404)
+			}
 			outTerm = vh.App("RErr", vh.Str(code))
 			sj = &setJudge{before, op.Sil.ID, code, "", true}
 			r.tags["apipost-err/"+code]++
